@@ -2,7 +2,7 @@
    Recursion is on explicit fuel (the Rust function recurses on the native stack without
    a depth check - recorded under C06); [None] = out of fuel. *)
 From PL Require Export Data.Val.
-Open Scope N_scope.
+Local Open Scope N_scope.
 
 Fixpoint equal (fuel : nat) (a b : val) : option bool :=
   match fuel with
